@@ -968,7 +968,7 @@ def plan(ctx: Ctx) -> List[Dict[str, Any]]:
             dict(name="structure<=3", actions=3, depth=3, fields=2, kinds=rep, blocks=ALL_BLOCKS, free=False, sample=None),
             dict(name="fields", actions=2, depth=1, fields=2, kinds=ALL_KINDS, blocks=["para"], free=False, sample=None),
             dict(name="structure=4", actions=4, depth=3, fields=1, kinds=["param", "note"], blocks=ALL_BLOCKS, free=False,
-                 sample=1500),
+                 sample=1200),
         ]
     return [
         dict(name="structure<=4", actions=4, depth=3, fields=2, kinds=rep, blocks=ALL_BLOCKS, free=False, sample=None),
@@ -1059,7 +1059,7 @@ def run(ctx: Ctx) -> int:
                           "documents_enumerated": enumerated, "documents_replayed": len(recs),
                           "tlc_distinct_states": r.distinct})
     # ------------------------------------------------------------------ a sample through a complete pydoctor run
-    wr_n = 120 if ctx.quick else 1200
+    wr_n = 100 if ctx.quick else 1200
     pool_recs = [x for x in whole_pool if x["host"] == "function"]
     pool_recs.sort(key=lambda x: json.dumps(x["doc"], sort_keys=True))
     pool_recs = rng.sample(pool_recs, min(len(pool_recs), wr_n))
